@@ -23,10 +23,14 @@ struct Ev {
     void const* self;
     void const* other;
     int value;
+    int tag;   // which instrumented type (alternative of a variant, callable type of an inplace_function)
 };
 
 inline std::vector<Ev> g_log;
-inline void log(int kind, void const* self, void const* other, int value) { g_log.push_back(Ev{kind, self, other, value}); }
+inline void log(int kind, void const* self, void const* other, int value, int tag = 0)
+{
+    g_log.push_back(Ev{kind, self, other, value, tag});
+}
 
 constexpr int moved_marker = -1;
 
@@ -76,6 +80,61 @@ struct TrkC {
     friend bool operator<(TrkC const& a, TrkC const& b) { return a.v < b.v; }
 };
 
+// ---- tagged flavours: distinct types for the alternatives of a variant / the callables of an
+// inplace_function.  operator()(int* peek): peek != nullptr reads the value without an event.
+template <int Tag>
+struct TCM {
+    static constexpr bool copyable = true;
+    static constexpr bool movable  = true;
+    static constexpr int tag       = Tag;
+    int v;
+    TCM() : v{0} { log(CV, this, nullptr, 0, Tag); }
+    explicit TCM(int x) noexcept : v{x} { log(CV, this, nullptr, x, Tag); }
+    TCM(TCM const& o) : v{o.v} { log(CC, this, &o, v, Tag); }
+    TCM(TCM&& o) noexcept : v{o.v} { o.v = moved_marker; log(CM, this, &o, v, Tag); }
+    auto operator=(TCM const& o) -> TCM& { v = o.v; log(AC, this, &o, v, Tag); return *this; }
+    auto operator=(TCM&& o) noexcept -> TCM& { int t = o.v; o.v = moved_marker; v = t; log(AM, this, &o, v, Tag); return *this; }
+    ~TCM() { log(DT, this, nullptr, v, Tag); }
+    auto operator()(int* peek) const -> int
+    {
+        if (peek != nullptr) { *peek = v; } else { log(US, this, nullptr, v, Tag); }
+        return Tag;
+    }
+};
+
+template <int Tag>
+struct TM {
+    static constexpr bool copyable = false;
+    static constexpr bool movable  = true;
+    static constexpr int tag       = Tag;
+    int v;
+    TM() : v{0} { log(CV, this, nullptr, 0, Tag); }
+    explicit TM(int x) noexcept : v{x} { log(CV, this, nullptr, x, Tag); }
+    TM(TM const&)                    = delete;
+    auto operator=(TM const&) -> TM& = delete;
+    TM(TM&& o) noexcept : v{o.v} { o.v = moved_marker; log(CM, this, &o, v, Tag); }
+    auto operator=(TM&& o) noexcept -> TM& { int t = o.v; o.v = moved_marker; v = t; log(AM, this, &o, v, Tag); return *this; }
+    ~TM() { log(DT, this, nullptr, v, Tag); }
+};
+
+template <int Tag>
+struct TC {
+    static constexpr bool copyable = true;
+    static constexpr bool movable  = false;
+    static constexpr int tag       = Tag;
+    int v;
+    TC() : v{0} { log(CV, this, nullptr, 0, Tag); }
+    explicit TC(int x) noexcept : v{x} { log(CV, this, nullptr, x, Tag); }
+    TC(TC const& o) noexcept : v{o.v} { log(CC, this, &o, v, Tag); }
+    auto operator=(TC const& o) noexcept -> TC& { v = o.v; log(AC, this, &o, v, Tag); return *this; }
+    ~TC() { log(DT, this, nullptr, v, Tag); }
+    auto operator()(int* peek) const -> int
+    {
+        if (peek != nullptr) { *peek = v; } else { log(US, this, nullptr, v, Tag); }
+        return Tag;
+    }
+};
+
 // ---- locations -------------------------------------------------------------------------------
 // persistent slot: (c, i) with c >= 0; temporary: c = -1, i = address
 using Loc = std::pair<long, long>;
@@ -88,12 +147,17 @@ struct Region {
 
 struct Locator {
     std::vector<Region> regions;   // index = persistent object id
-    auto locate(void const* p) const -> Loc
+    // by_tag: an object anywhere inside region c is "alternative <tag> of object c" (variant,
+    // inplace_function); collapsed: ... is "the storage of object c" (all alternatives one location)
+    bool by_tag{false};
+    bool collapsed{false};
+    auto locate(void const* p, int tag = 0) const -> Loc
     {
         auto const* q = static_cast<char const*>(p);
         for (std::size_t c = 0; c < regions.size(); ++c) {
             auto const& r = regions[c];
             if (r.base != nullptr && q >= r.base && q < r.base + r.elem * r.count) {
+                if (by_tag) { return Loc{static_cast<long>(c), collapsed ? 0L : static_cast<long>(tag)}; }
                 auto off = static_cast<std::size_t>(q - r.base);
                 if (off % r.elem == 0) { return Loc{static_cast<long>(c), static_cast<long>(off / r.elem)}; }
             }
@@ -152,9 +216,9 @@ struct Monitor {
         };
         for (std::size_t k = from; k < evs.size(); ++k) {
             auto const& e = evs[k];
-            Loc l         = where.locate(e.self);
+            Loc l         = where.locate(e.self, e.tag);
             bool has_src  = e.other != nullptr;
-            Loc s         = has_src ? where.locate(e.other) : Loc{-2, 0};
+            Loc s         = has_src ? where.locate(e.other, e.tag) : Loc{-2, 0};
             int ls        = get(l);
             int ss        = has_src ? get(s) : Live;
             bool src_ok   = !has_src || ss != Dead;
